@@ -438,4 +438,54 @@ def tracesData (c : Ctx) (main : Sel) : Sel :=
 def plan (c : Ctx) (script : Script) : PlanM Sel := do
   pure (indexLimit c (tracesData c (← indexGrouped c script)))
 
+/-! ### `PlanTagsV2` / `PlanValuesV2` (select_tags_planner.go, select_values_planner.go, all_values_request_planner.go) -/
+
+/-- `SelectTagsPlanner.Process` over the index scan of the selector -/
+def selectTags (c : Ctx) (col : String) (main : Sel) : Sel :=
+  let pre : Sel := .mk [] false [.raw "span_id"] (some (.withRef (.named "select_spans"))) [] none none [] none [] none
+  let res : Sel := (Sel.mk [] false [simpleCol col col] (some (.col (.raw c.attrsDistTable) "traces_idx")) [] none
+    (some (and_ [and_ [
+      ge (.raw "date") (.str (Time.formatDate (Int.fdiv c.fromNs 1000000000 + c.zoneOff))),
+      le (.raw "date") (.str (Time.formatDate (Int.fdiv c.toNs 1000000000 + c.zoneOff))),
+      ge (.raw "traces_idx.timestamp_ns") (.int c.fromNs),
+      lt (.raw "traces_idx.timestamp_ns") (.int c.toNs),
+      .isIn (.raw "span_id") [.withRef (.named "pre_select_tags")]]]))
+    [.raw "trace_id", .raw "span_id"] none [] none).with_ [(.named "select_spans", main), (.named "pre_select_tags", pre)]
+  res
+
+def tagsOrder (c : Ctx) (col : String) (s : Sel) : Sel :=
+  if c.limit > 0 then (s.setOrderBy [.orderBy (.raw col) .asc]).setLimit (some (.int c.limit)) else s
+
+/-- the index scan of `tagsV2Planner` / `valuesV2Planner`: the head selector only, chains are refused -/
+def tagsMain (c : Ctx) (script : Script) : PlanM (Option Sel) := do
+  match script with
+  | [] => throw "nil script"
+  | _ :: _ :: _ => throw "complex requests `{} || {} ...` are not supported"
+  | [(s, _)] =>
+    check script
+    match s.attrs with
+    | none => pure none
+    | some e =>
+      let (terms, cond) := analyzeCond [] e
+      let m ← attrCondition c terms cond (match s.agg with | some a => a.attr | none => "")
+      pure (some m)
+
+/-- `PlanTagsV2(script).Process(ctx)`; `{}` is the nil dereference of the Go code -/
+def planTags (c : Ctx) (script : Script) : PlanM Sel := do
+  match ← tagsMain c script with
+  | none => throw "nil pointer dereference (no conditions)"
+  | some m => pure (tagsOrder c "key" (selectTags c "key" m))
+
+/-- `PlanValuesV2(script, key).Process(ctx)`; `fromDate`/`toDate` are `FormatFromDate` of ctx.From / ctx.To (UTC, − 30 min) -/
+def planValues (c : Ctx) (kvTable : String) (key : Bytes) (script : Script) : PlanM Sel := do
+  match ← tagsMain c script with
+  | none =>
+    pure (.mk [] true [simpleCol "val" "val"] (some (.raw kvTable)) [] none
+      (some (and_ [ge (.raw "date") (.str (Time.formatFromDate c.fromNs)), le (.raw "date") (.str (Time.formatFromDate c.toNs)),
+        eq (.raw "key") (.str key)])) [] none [] none)
+  | some m =>
+    let t := tagsOrder c "key" (selectTags c "key" m)
+    let t : Sel := match t with | .mk ws d _ f j p w g h o l => .mk ws d [simpleCol "val" "val"] f j p w g h o l
+    pure (tagsOrder c "val" (t.andWhere [eq (.raw "key") (.str key)]))
+
 end Qryn.TraceQL
